@@ -556,6 +556,24 @@ impl Crystal {
         c
     }
 
+    /// displace atoms by at most `radius` and shear the lattice by a single symmetric off-diagonal strain entry that uses
+    /// the whole budget "no lattice-vector tip moves by more than `radius`" (entry 0.9 radius / longest vector): the largest
+    /// change of an inter-axial angle the noise premise of C09 allows.  Returns the crystal and that angle bound 2 e.
+    pub fn noise_shear(&self, rng: &mut Rng, radius: f64) -> (Crystal, f64) {
+        let mut c = self.noise_atoms(rng, 0.0, radius, 1.0);
+        let basis = self.cell.lattice.basis;
+        let lmax = (0..3).map(|i| basis.column(i).norm()).fold(0.0, f64::max);
+        let e = 0.9 * radius / lmax * if rng.chance(0.5) { 1.0 } else { -1.0 };
+        let (i, j) = *rng.pick(&[(0usize, 1usize), (0, 2), (1, 2)]);
+        let mut s = Matrix3::<f64>::identity();
+        s[(i, j)] += e;
+        s[(j, i)] += e;
+        c.cell.lattice = Lattice { basis: s * basis };
+        c.truth.noisy = true;
+        c.truth.steps.push("noise-shear".into());
+        (c, 2.0 * e.abs())
+    }
+
     /// displace atoms by at most `radius` (Cartesian) and strain the lattice by the same relative size
     pub fn noise(&self, rng: &mut Rng, radius: f64) -> Crystal {
         let mut c = self.clone();
